@@ -211,6 +211,12 @@ asn_encode_to_new_buffer(const asn_codec_ctx_t *opt_codec_ctx,
 
     res.buffer = buf_key.buffer;
 
+    if(res.result.encoded < 0) {
+        /* The header promises a NULL buffer if failed to encode. */
+        FREEMEM(res.buffer);
+        res.buffer = NULL;
+    }
+
     /* 0-terminate just in case. */
     if(res.buffer) {
         assert(buf_key.computed_size < buf_key.buffer_size);
